@@ -266,6 +266,7 @@ def parseTOp (toks : List String) : Option TOp :=
   | ["reserve", id] => some (.reserve (id.toInt?.getD 0))
   | ["setup"] => some .setup
   | ["hand", finals] => some (.hand (intList finals))
+  | ["hand", finals, _policy] => some (.hand (intList finals))   -- how the harness played the hand: not the model's business
   | _ => none
 
 /-- match.Table (match/table.go): `Join`, `ApplySeatChanges` with one seat reported "left", `GetPlayers`. -/
